@@ -32,7 +32,10 @@
  *   trailbs  explicit delimiter set and input ends in an unescaped backslash   (split + tok defect)
  *   empty    some grammar token is empty ('' or "")                            (spif_str_trim reads s[-1])
  *   blank    some grammar token is non-empty and all whitespace                (spif_str_trim keeps one blank)
- *   multi    two or more of mixed / trailbs / empty / blank */
+ *   multi    two or more of mixed / trailbs / empty / blank
+ * Quick tier: tok.clean and tok.defects (= every class but clean, in one unit); the five per-class units run
+ * in the thorough tier.  Agreement with spiftool_split follows from the split.grammar.* units: split equals
+ * the grammar's tokens and tok equals the trimmed grammar tokens on the same inputs. */
 
 /*@unit
 name: tok.clean
@@ -45,9 +48,28 @@ unwind_thorough: 8
 flags: --unwindset spif_tok_eval.5:5
 objbits: 10
 backend: cadical
-timeout: 900
-timeout_thorough: 4000
+quick: yes
+timeout: 1500
+timeout_thorough: 6000
 mem: 16
+funcs: spif_tok_eval, spif_tok_new_from_ptr, spif_tok_set_sep, spif_str_new_from_ptr, spif_str_new_from_buff, spif_str_clear, spif_str_append_char, spif_str_trim, spif_dlinked_list_append, spif_dlinked_list_get
+*/
+/*@unit
+name: tok.defects
+define: V_CLASS=6, VERIF_MAXLEN_Q=4, VERIF_MAXLEN_T=6, VS_OBJS=1024
+src: tok.c, str.c, dlinked_list.c, obj.c
+tier: B
+bound: input length <= 4 (quick tier) / <= 6 (thorough tier) over {a,b,space,:,',",\}; delimiter sets NULL, ":", " :"; inputs of any class other than clean (the five classes below together); loops unwound 6 / 8 (token loop 5)
+unwind: 6
+unwind_thorough: 8
+flags: --unwindset spif_tok_eval.5:5
+objbits: 10
+backend: cadical
+quick: yes
+timeout: 1500
+timeout_thorough: 6000
+mem: 16
+funcs: spif_tok_eval, spif_tok_new_from_ptr, spif_tok_set_sep, spif_str_new_from_ptr, spif_str_new_from_buff, spif_str_clear, spif_str_append_char, spif_str_trim, spif_dlinked_list_append, spif_dlinked_list_get
 */
 /*@unit
 name: tok.mixed
@@ -60,24 +82,28 @@ unwind_thorough: 8
 flags: --unwindset spif_tok_eval.5:5
 objbits: 10
 backend: cadical
-timeout: 900
-timeout_thorough: 4000
+quick: no
+timeout: 1500
+timeout_thorough: 6000
 mem: 16
+funcs: spif_tok_eval, spif_tok_new_from_ptr, spif_tok_set_sep, spif_str_new_from_ptr, spif_str_new_from_buff, spif_str_clear, spif_str_append_char, spif_str_trim, spif_dlinked_list_append, spif_dlinked_list_get
 */
 /*@unit
 name: tok.trailbs
 define: V_CLASS=2, VERIF_MAXLEN_Q=4, VERIF_MAXLEN_T=6, VS_OBJS=1024
 src: tok.c, str.c, dlinked_list.c, obj.c
 tier: B
-bound: input length <= 4 (quick tier) / <= 6 (thorough tier) over {a,b,space,:,',",\}; delimiter sets ":", " :"; inputs of class trailbs; loops unwound 6 / 8 (token loop 5)
+bound: input length <= 4 (quick tier) / <= 6 (thorough tier) over {a,b,space,:,',",\}; delimiter sets NULL, ":", " :"; inputs of class trailbs; loops unwound 6 / 8 (token loop 5)
 unwind: 6
 unwind_thorough: 8
 flags: --unwindset spif_tok_eval.5:5
 objbits: 10
 backend: cadical
-timeout: 900
-timeout_thorough: 4000
+quick: no
+timeout: 1500
+timeout_thorough: 6000
 mem: 16
+funcs: spif_tok_eval, spif_tok_new_from_ptr, spif_tok_set_sep, spif_str_new_from_ptr, spif_str_new_from_buff, spif_str_clear, spif_str_append_char, spif_str_trim, spif_dlinked_list_append, spif_dlinked_list_get
 */
 /*@unit
 name: tok.empty
@@ -90,9 +116,11 @@ unwind_thorough: 8
 flags: --unwindset spif_tok_eval.5:5
 objbits: 10
 backend: cadical
-timeout: 900
-timeout_thorough: 4000
+quick: no
+timeout: 1500
+timeout_thorough: 6000
 mem: 16
+funcs: spif_tok_eval, spif_tok_new_from_ptr, spif_tok_set_sep, spif_str_new_from_ptr, spif_str_new_from_buff, spif_str_clear, spif_str_append_char, spif_str_trim, spif_dlinked_list_append, spif_dlinked_list_get
 */
 /*@unit
 name: tok.blank
@@ -105,9 +133,11 @@ unwind_thorough: 8
 flags: --unwindset spif_tok_eval.5:5
 objbits: 10
 backend: cadical
-timeout: 900
-timeout_thorough: 4000
+quick: no
+timeout: 1500
+timeout_thorough: 6000
 mem: 16
+funcs: spif_tok_eval, spif_tok_new_from_ptr, spif_tok_set_sep, spif_str_new_from_ptr, spif_str_new_from_buff, spif_str_clear, spif_str_append_char, spif_str_trim, spif_dlinked_list_append, spif_dlinked_list_get
 */
 /*@unit
 name: tok.multi
@@ -120,9 +150,11 @@ unwind_thorough: 8
 flags: --unwindset spif_tok_eval.5:5
 objbits: 10
 backend: cadical
-timeout: 900
-timeout_thorough: 4000
+quick: no
+timeout: 1500
+timeout_thorough: 6000
 mem: 16
+funcs: spif_tok_eval, spif_tok_new_from_ptr, spif_tok_set_sep, spif_str_new_from_ptr, spif_str_new_from_buff, spif_str_clear, spif_str_append_char, spif_str_trim, spif_dlinked_list_append, spif_dlinked_list_get
 */
 #define VERIF_OWN_STRLEN
 #define VERIF_OWN_STRCHR
@@ -170,8 +202,10 @@ unsigned w_delim_kind;
 # define CLS "[empty token]"
 #elif V_CLASS == 4
 # define CLS "[blank token]"
-#else
+#elif V_CLASS == 5
 # define CLS "[several classes]"
+#else
+# define CLS "[any defect class]"
 #endif
 
 void harness(void)
@@ -212,8 +246,10 @@ void harness(void)
     __CPROVER_assume(flags == 1 && f_empty);
 #elif V_CLASS == 4
     __CPROVER_assume(flags == 1 && f_blank);
-#else
+#elif V_CLASS == 5
     __CPROVER_assume(flags >= 2);
+#else
+    __CPROVER_assume(flags >= 1);
 #endif
 
     spif_str_strclass = &s_class;     /* class pointers as the library initialises them */
